@@ -14,29 +14,38 @@ ENGINES = {
 
 PROP = {
     "engines": ["cache"],
-    "lean_modules": ["AxVerif.Model.Cache", "AxVerif.Model.Config", "AxVerif.Lemmas.Cache"],
+    "lean_modules": ["AxVerif.Model.Cache", "AxVerif.Model.Config", "AxVerif.Lemmas.Cache",
+                     # geometry_irrelevant is a corollary of C10's checker soundness
+                     "AxVerif.Model.BTree", "AxVerif.Lemmas.BTree"],
     "rule": "cases = op sequences on a real PageCache (`seq`, capacity 0..64: insert/get/pin/unpin/read+write through held frames/"
             "evict/remove/clear/drain/set_capacity), op sequences on a real Pager over a scratch file (`pgr`, capacity 1..64, page "
             "4-64 KiB: allocate/read/write/pin/unpin/flush/reopen + raw reads of the file), DBConfig::new/builder/page-zero header "
-            "(`cfg`), and one SQL workload under a grid of configurations (`grid`); all derived from VERIF_SEED. "
+            "(`cfg`), and the configuration grids through the public SQL API: `grid` (own workload of bulk inserts up to 1 200 rows, rows up "
+            "to 38 KB, updates, deletes, selects, a UNIQUE table, checkpoints: 8 workloads x 12 configurations), `sqlgrid` (scripts of the "
+            "`sql` engine's generator — joins, aggregates, ORDER BY/LIMIT, DML — 24 scripts x 8 configurations, half of them as generated and "
+            "answered by the logical model, half on tables blown up 10-60 times) and `histgrid` (histories of the `hist` engine's generator — "
+            "interleaved sessions, commits, rollbacks — 30 x 6 configurations); configurations: page 4-64 KiB, cache 4-10 000 pages, pool 1/2/8, "
+            "min keys 3-8, siblings 1-4, checkpoints on/off; all derived from VERIF_SEED. "
             "Non-trivial = seq case with at least one eviction, out-of-memory answer or non-empty clear; pgr case that allocates more "
-            "pages than the cache holds, checkpoints, reopens or runs out of memory; every cfg and grid case. Distinct = distinct case line.",
+            "pages than the cache holds, checkpoints, reopens or runs out of memory; every cfg, grid, sqlgrid and histgrid case. Distinct = distinct case line.",
     "assumptions": [
         "a page's content is abstracted to one number (the harness keeps an 8-byte payload at the start of the page's data area)",
         "single-threaded use of the pager: references held outside the cache (pins) are explicit operations; a checkpoint while frames are pinned detaches them (modelled, generated in a minority of cases, excluded by hypothesis in the refinement theorem)",
         "page deallocation / the free list belong to C11 and are not driven here",
         "pages whose allocation failed with out-of-memory are never referred to afterwards (their id never reached the caller; allocate_page leaks the id — a C11 matter)",
-        "grid: a statement whose worker thread panicked is reported as `panic`, one that does not answer within 20 s as `hang`; both count as failures; in a configuration with a cache below 48 pages an explicit out-of-memory error is tolerated and the rest of that configuration's run is not compared",
+        "grid: a statement whose worker thread panicked is reported as `panic`, one that does not answer within 20 s as `hang`; both count as failures; in a configuration with a cache below the pin bound (2*siblings+10 pages) an explicit out-of-memory error is tolerated and the rest of that configuration's run is not compared; the script grids (`sqlgrid`, `histgrid`) only use caches at or above the bound, where no difference at all is tolerated",
     ],
-    "partial": "Proved (unbounded, all defect combinations): the storage half of C12 — cache+file refine a flat store, so answers do not "
-               "depend on the cache capacity or the eviction order; checkpoint completeness; out-of-memory only with >= capacity pins; "
-               "configuration round-trip through page zero. NOT proved here: independence of the SQL answers from the page geometry "
-               "(page size, min keys per page, siblings per side) and from the pool size — that needs the logical database model and "
-               "C10's B+tree theorems (`geometry_irrelevant`, DESIGN §5); the full statement is kept as "
-               "`sql_results_independent_of_configuration_statement` (a def, not claimed) and is only tested by the configuration grid "
-               "(`grid` cases: 8 workloads x 12 configurations per quick run). The grid's clean region is workloads with rows below 300 bytes and "
-               "at most 240 inserts per table: larger rows break the B+tree in every configuration (finding KF-C12-btree-big-cells, region `bigrows`), "
-               "and the 256th insert into a table overflows the one-byte tuple version counter of its catalog row (tuple.rs:1020, C18).",
+    "partial": "Proved (unbounded): cache+file refine a flat store for every defect combination; every deterministic client of the pager "
+               "(`Client`: next operation chosen from the answers so far) has the same dialogue with the pager as with the flat store for "
+               "every capacity above its pin bound, no out-of-memory hypothesis left (`client_sees_flat_store`, "
+               "`results_independent_of_capacity/_configuration`); accepted page graphs with equal contents answer alike whatever geometry "
+               "built them (`geometry_irrelevant`, corollary of C10's checker soundness); the settings reach the engine unchanged. "
+               "Not a theorem (it is a statement about the Rust engine as a whole, kept as the def "
+               "`sql_results_independent_of_configuration_statement`): that the SQL engine *is* such a client and that its tree code produces "
+               "accepted graphs with the right contents under every geometry — the first is tied by the configuration grids (identical canonical "
+               "results required, `sqlgrid m` also against the logical model, which has no configuration argument), the second by C10's engine "
+               "(checked dump after every operation under 4-16 KiB pages, 3-16 min keys, 1-8 siblings). The pin bound of the tree code "
+               "(2*siblings+10 frames) is measured, not proved: an out-of-memory answer at or above it is a violation.",
     "trusted": [],
 }
 
@@ -44,8 +53,9 @@ TEXT = {
     "text": "Lean theorems over the model of PageCache + Pager: refinement of the cache+disk to a flat store for every operation sequence "
             "without an out-of-memory answer (data survives any amount of eviction), checkpoint leaves every page's last value on disk, "
             "out-of-memory only if every frame is pinned, size/duplicate invariants, configuration round-trip through page zero in the "
-            "documented ranges; tied to io/cache.rs, io/pager.rs, common/mod.rs by generated operation sequences on the real cache and a "
-            "real pager, and by one SQL workload replayed under a grid of configurations.",
+            "documented ranges; lifted to every deterministic client of the pager (results independent of the capacity above the pin bound) and, "
+            "through C10's checker, to every page geometry; tied to io/cache.rs, io/pager.rs, common/mod.rs by generated operation sequences on the real cache and a "
+            "real pager, and by SQL workloads, `sql`-engine scripts and `hist`-engine histories replayed under grids of configurations.",
     "design_ref": "DESIGN.md §5 C12",
     "note": "Trusted: Lean kernel + propext/Quot.sound; the hand-written model of io/cache.rs and of the page-moving part of io/pager.rs "
             "(validated differentially, not verified).",
